@@ -57,6 +57,9 @@ ASSUMPTIONS = [
     "than 1e-4 s to the instant of an operation are treated as simultaneous (either order accepted)",
     "RandomNumberCache draws through the module-level name ipv8.requestcache.random (replaced by a scripted source "
     "so that collisions are forced and runs are reproducible)",
+    "putting a resolved cache OBJECT back with add() is treated as admitted (add's docstring does not restrict it; "
+    "no in-tree caller does it): violations that need it carry the site suffix ':re-added' so that they can be triaged "
+    "apart from the fresh-object ones",
     "the identifier is expected to be free already while on_timeout runs (DESIGN M: '_on_timeout removes the "
     "identifier first'); futures of cleared caches and wait_for are not judged",
 ]
